@@ -132,3 +132,75 @@ Proof.
     [apply bytes_eqb_eq in B3; split; [discriminate|tauto]|apply bytes_eqb_neq in B3].
   split; [intros _; tauto|reflexivity].
 Qed.
+
+(* ---------------------------------------------------------------- the filter and the inner tokens *)
+
+(* The filter runs on the full token stream; the specification speaks about the template-level
+   tokens.  On streams where every token of a tag's interior directly follows the tag's start
+   token or another interior token (as in every stream the lexer produces) the two commute. *)
+Definition is_open (t : tok) : bool :=
+  match t with TVarStart _ | TTagStart _ => true | _ => false end.
+
+Fixpoint inner_placed (b : bool) (ts : list tok) : bool :=
+  match ts with
+  | [] => true
+  | t :: r => if is_template_tok t then inner_placed (is_open t) r else b && inner_placed true r
+  end.
+
+Definition passes (t : tok) : bool :=
+  match t with
+  | TContent _ | TRaw _ _ _ | TComment _ _ | TVarEnd true | TTagEnd true => false
+  | _ => true
+  end.
+
+Lemma wsf_pass : forall fx f t ts, passes t = true -> wsf fx f (t :: ts) = t :: wsf fx false ts.
+Proof.
+  intros fx f t ts H.
+  destruct t as [s|l s r|w|w|w|w|l r|s|s|z|s|b|o]; try discriminate; try reflexivity;
+    destruct w; try discriminate; reflexivity.
+Qed.
+
+Lemma wsf_varend : forall fx f w ts, wsf fx f (TVarEnd w :: ts) = TVarEnd w :: wsf fx w ts.
+Proof. intros fx f [|] ts; reflexivity. Qed.
+
+Lemma wsf_tagend : forall fx f w ts, wsf fx f (TTagEnd w :: ts) = TTagEnd w :: wsf fx w ts.
+Proof. intros fx f [|] ts; reflexivity. Qed.
+
+Lemma peek_filter : forall ts, inner_placed false ts = true ->
+  peek_trims (annot (filter is_template_tok ts)) = peek_trims (annot ts).
+Proof.
+  intros [|t r] H; [reflexivity|].
+  destruct t as [s|l s r0|w|w|w|w|l r0|s|s|z|s|b|o]; try reflexivity; cbn in H; discriminate.
+Qed.
+
+Lemma wsf_proj : forall fx ts b flag,
+  inner_placed b ts = true -> (b = true -> flag = false) ->
+  filter is_template_tok (wsf fx flag ts) = wsf fx flag (filter is_template_tok ts).
+Proof.
+  intros fx. induction ts as [|t r IH]; intros b flag P F; [reflexivity|].
+  destruct t as [s|l s r0|w|w|w|w|l r0|s|s|z|s|c|o];
+    cbn [inner_placed is_template_tok is_open] in P; cbn [filter is_template_tok].
+  - rewrite !wsf_content. cbn [filter is_template_tok]. rewrite (peek_filter r P). f_equal.
+    apply (IH false); [exact P|discriminate].
+  - rewrite !wsf_raw. cbn [filter is_template_tok]. rewrite (peek_filter r P). f_equal.
+    apply (IH false); [exact P|discriminate].
+  - rewrite !wsf_pass by reflexivity. cbn [filter is_template_tok]. f_equal.
+    apply (IH true); [exact P|reflexivity].
+  - rewrite !wsf_varend. cbn [filter is_template_tok]. f_equal. apply (IH false); [exact P|discriminate].
+  - rewrite !wsf_pass by reflexivity. cbn [filter is_template_tok]. f_equal.
+    apply (IH true); [exact P|reflexivity].
+  - rewrite !wsf_tagend. cbn [filter is_template_tok]. f_equal. apply (IH false); [exact P|discriminate].
+  - rewrite !wsf_comment. cbn [filter is_template_tok]. f_equal. apply (IH false); [exact P|discriminate].
+  - apply andb_true_iff in P as [Pb P]. rewrite (F Pb). rewrite wsf_pass by reflexivity.
+    cbn [filter is_template_tok]. apply (IH true); [exact P|reflexivity].
+  - apply andb_true_iff in P as [Pb P]. rewrite (F Pb). rewrite wsf_pass by reflexivity.
+    cbn [filter is_template_tok]. apply (IH true); [exact P|reflexivity].
+  - apply andb_true_iff in P as [Pb P]. rewrite (F Pb). rewrite wsf_pass by reflexivity.
+    cbn [filter is_template_tok]. apply (IH true); [exact P|reflexivity].
+  - apply andb_true_iff in P as [Pb P]. rewrite (F Pb). rewrite wsf_pass by reflexivity.
+    cbn [filter is_template_tok]. apply (IH true); [exact P|reflexivity].
+  - apply andb_true_iff in P as [Pb P]. rewrite (F Pb). rewrite wsf_pass by reflexivity.
+    cbn [filter is_template_tok]. apply (IH true); [exact P|reflexivity].
+  - apply andb_true_iff in P as [Pb P]. rewrite (F Pb). rewrite wsf_pass by reflexivity.
+    cbn [filter is_template_tok]. apply (IH true); [exact P|reflexivity].
+Qed.
